@@ -2,11 +2,23 @@
 """Prints the brief for an independent mutation sub-agent for property Cxx (gets only the property text)."""
 import json, sys, os
 pid = sys.argv[1]
+round2 = len(sys.argv) > 2 and sys.argv[2] == '2'
 V = os.path.dirname(os.path.dirname(os.path.dirname(os.path.abspath(__file__))))
 for l in open(os.path.join(V, 'properties.jsonl')):
     p = json.loads(l)
     if p['id'] == pid:
         break
+excl = ''
+first = 1
+if round2:
+    import glob
+    first = 4
+    done = []
+    for mp in sorted(glob.glob(os.path.join(V, 'seeded', pid + '-m*', 'meta.json'))):
+        done.append('  - ' + json.load(open(mp))['change'])
+    excl = ('\nThis is a second round. The following changes were already produced for this property; do NOT repeat them or close variants '
+            '(same statement or same check in the same function) — go for different functions, mechanisms and clauses of the property:\n'
+            + '\n'.join(done) + '\nNumber your mutants m4, m5, m6.\n')
 print(f'''You are helping to evaluate verification tooling for libopus (xiph/opus, the reference C implementation of the Opus audio codec). You have your own scratch git worktree of the repository at /tmp/mut-{pid} . Work ONLY there and in /tmp/mut-{pid}-out . Do not read, list or touch /verif or /repo (your result must be independent of any existing verification machinery).
 
 Here is a semantic property the library is supposed to satisfy:
@@ -21,9 +33,9 @@ Task: produce up to 3 independent, realistic source changes to the library (bugs
      cmake -G Ninja -S /tmp/mut-{pid} -B /tmp/mut-{pid}/_build -DCMAKE_BUILD_TYPE=RelWithDebInfo -DCMAKE_C_FLAGS=-Wno-error -DOPUS_BUILD_TESTING=ON -DOPUS_HARDENING=ON && cmake --build /tmp/mut-{pid}/_build -j8 && nice -n 10 ctest --test-dir /tmp/mut-{pid}/_build -j6 --timeout 1800
      (about 10-15 minutes; every test must pass; you may run the fast tests first while iterating but the full suite must pass for the final patch), and
  (c) it needs something specific to manifest — a particular input, a multi-step sequence of operations, an unusual configuration, a particular history or interleaving — not something that ordinary use or a smoke test would expose at once.
-Prefer changes in different functions / mechanisms so the mutants are diverse, and prefer subtle ones. Changes must be to library source under celt/, silk/, src/ or include/ (not to tests, not to the build system).
+Prefer changes in different functions / mechanisms so the mutants are diverse, and prefer subtle ones.{excl} Changes must be to library source under celt/, silk/, src/ or include/ (not to tests, not to the build system).
 
-For each mutant k = 1..3 write into /tmp/mut-{pid}-out/m<k>/ :
+For each mutant k = {first}..{first+2} write into /tmp/mut-{pid}-out/m<k>/ :
   patch.diff  — `git diff` against HEAD; must apply to a clean checkout with `git apply patch.diff`
   demo.c      — a small self-contained C program (uses only the public API in include/ unless an internal header is needed; then say which -I flags) that checks the property on the specific triggering input: exits 0 and prints PASS when the property holds, exits non-zero and prints FAIL with details when it is violated
   run.sh      — `sh run.sh <repo-dir>`: builds libopus from <repo-dir> into a temporary build dir under /tmp, compiles demo.c against it, runs it, removes the build dir; exit status = demo's
